@@ -138,13 +138,20 @@ func CheckHistory(h History) *kit.Violation {
 				cur, ctCached, ctMT, ctCS = nr, true, mt, cs
 			}
 
-		case "ResponseFormat", "ResponseFormatOther":
+		case "ResponseFormat", "ResponseFormatOther", "ResponseFormatParams":
 			if v := ensureRoute(); v != nil {
 				return v
 			}
 			offers := route.Produces
 			if op == "ResponseFormatOther" {
 				offers = []string{"text/other"}
+			}
+			if op == "ResponseFormatParams" {
+				// the same offers, spelled with a parameter: what was negotiated first is what every later asker gets
+				offers = nil
+				for _, o := range route.Produces {
+					offers = append(offers, o+"; charset=utf-8")
+				}
 			}
 			var f string
 			var nr *http.Request
@@ -193,6 +200,19 @@ func CheckHistory(h History) *kit.Violation {
 				cur = nr // anonymous access: nothing to reuse
 			}
 
+		case "ResetAuthDiscard":
+			// somebody derives an anonymous request (for a sub-handler, say) and this asker keeps the value it holds
+			var nr *http.Request
+			if v := kit.Guard("ResetAuth", func() { nr = ctx.ResetAuth(cur) }); v != nil {
+				return v
+			}
+			if nr == nil {
+				return fail("ResetAuth returned no request")
+			}
+			if middleware.SecurityPrincipalFrom(nr) != nil {
+				return fail("ResetAuth left a principal on the request it returned")
+			}
+
 		case "ResetAuth":
 			var nr *http.Request
 			if v := kit.Guard("ResetAuth", func() { nr = ctx.ResetAuth(cur) }); v != nil {
@@ -218,9 +238,22 @@ func CheckHistory(h History) *kit.Violation {
 				swapped = true
 			}
 
-		case "BindAndValidate":
+		case "BindAndValidate", "BindAndValidateFresh":
 			if v := ensureRoute(); v != nil {
 				return v
+			}
+			useRoute := route
+			if op == "BindAndValidateFresh" {
+				// the asker looked the route up itself: an equal route description, another *MatchedRoute value
+				var fr *middleware.MatchedRoute
+				var ok bool
+				if v := kit.Guard("LookupRoute", func() { fr, ok = ctx.LookupRoute(cur) }); v != nil {
+					return v
+				}
+				if !ok || fr == nil {
+					return fail("LookupRoute does not match a request built for operation %s", ops[h.Req.Op].ID)
+				}
+				useRoute = fr
 			}
 			consBefore := atomic.LoadInt64(&w.consCalls)
 			var readsBefore int64
@@ -230,7 +263,7 @@ func CheckHistory(h History) *kit.Violation {
 			var bound interface{}
 			var nr *http.Request
 			var err error
-			if v := kit.Guard("BindAndValidate", func() { bound, nr, err = ctx.BindAndValidate(cur, route) }); v != nil {
+			if v := kit.Guard("BindAndValidate", func() { bound, nr, err = ctx.BindAndValidate(cur, useRoute) }); v != nil {
 				return v
 			}
 			es := ""
@@ -274,6 +307,11 @@ func CheckHistory(h History) *kit.Violation {
 		default:
 			return kit.Failf("harness: unknown op %q", op)
 		}
+		if prinCached {
+			if got := middleware.SecurityPrincipalFrom(cur); got != prinVal {
+				return fail("the request value held after a successful Authorize lost its principal: it now carries %v", got)
+			}
+		}
 		if c := atomic.LoadInt64(&w.consCalls) - cons0; c > 1 {
 			return fail("the consumer ran %d times for one request", c)
 		}
@@ -305,7 +343,7 @@ func (r *bytesReader) Read(p []byte) (int, error) {
 	return n, nil
 }
 
-var histOps = []string{"RouteInfo", "ContentType", "ContentType", "ResponseFormat", "ResponseFormatOther", "Authorize", "Authorize", "BindAndValidate", "BindAndValidate", "ResetAuth", "SwapCT"}
+var histOps = []string{"RouteInfo", "ContentType", "ContentType", "ResponseFormat", "ResponseFormatOther", "Authorize", "Authorize", "BindAndValidate", "BindAndValidate", "ResetAuth", "SwapCT", "ResponseFormatParams", "BindAndValidateFresh", "ResetAuthDiscard"}
 
 func GenHistory(t *rapid.T) History {
 	h := History{Req: oneDamage(genReq(t))}
@@ -323,8 +361,20 @@ func ClassifyHistory(h History) (bool, []string) {
 	authSinceReset := 0
 	for _, op := range h.Ops {
 		key := op
-		if op == "ResponseFormatOther" {
+		if op == "ResponseFormatOther" || op == "ResponseFormatParams" {
 			key = "ResponseFormat"
+		}
+		if op == "BindAndValidateFresh" {
+			key = "BindAndValidate"
+			if seen[key] > 0 {
+				labels["BindAndValidate repeated with another *MatchedRoute value"] = true
+			}
+		}
+		if op == "ResponseFormatParams" {
+			labels["offers spelled with parameters"] = true
+		}
+		if op == "ResetAuthDiscard" && seen["Authorize"] > 0 {
+			labels["ResetAuth result discarded after Authorize"] = true
 		}
 		seen[key]++
 		if op == "ResetAuth" {
@@ -381,7 +431,7 @@ const ruleSched = "batches of 2-16 (thorough: 2-64) generated requests against o
 	"oracle: every observation (status, content type, matched route and parameters, principal, scopes, consumer stamp, producer stamp, bound values) equals what the same request produces alone on a fresh instance and mentions no other request's token; any race report fails the run; " +
 	"non-trivial = at least two requests in flight on one operation with different consumers, producers or credentials; distinct by hash of the batch"
 
-const ruleHist = "sequences of 2-12 accessor calls (RouteInfo, ContentType, ResponseFormat with the route's offers or with other offers, Authorize, BindAndValidate, ResetAuth) on one generated request (valid, invalid body, wrong content type, no/bad credentials, anonymous, unacceptable Accept; body length declared or chunked), threading the returned request; " +
+const ruleHist = "sequences of 2-12 accessor calls (RouteInfo, ContentType, ResponseFormat with the route's offers, with other offers or with offers carrying parameters, Authorize, BindAndValidate with the stored or a freshly looked-up *MatchedRoute, ResetAuth threaded or with its result discarded, Content-Type header overwritten) on one generated request (valid, invalid body, wrong content type, no/bad credentials, anonymous, unacceptable Accept; body length declared or chunked), threading the returned request; " +
 	"oracle: a model of the memo - once a stage produced a result it returns the same request value and an equal result, the authenticator call count grows only when no principal is cached (and again after ResetAuth), the consumer runs at most once and the body is never read again; " +
 	"non-trivial = an accessor is repeated after it produced a result; distinct by hash of the history"
 
